@@ -251,7 +251,7 @@ class Paged(Lane):
 
 def body(chk):
     quick = chk.tier == 'quick'
-    p = (3, 1, True) if quick else (4, 2, True)
+    p = (3, 1, True) if quick else tier_param('C16', (4, 2, True))
     run_lane(chk, Paged, p, bounds={'pages': f'1..{p[0]}', 'entries per page': f'0..{p[1]} (incl. an empty first page)', 'cookies': ('1' if p[1] <= 1 else '1..2') + ' symbolic byte(s) each, consecutive pages may return the same cookie; empty on the last page',
                                     'page size': '1..127 symbolic', 'other request controls / search options / other response controls': 'present or absent', 'chaining': 'alone or behind EntriesOnly'},
              selftest=True, need_regions=('pages=1', 'pages=3', 'chained', 'user-paged'))
